@@ -7,6 +7,20 @@ import json, os, subprocess
 ROOT = os.path.dirname(os.path.dirname(os.path.abspath(__file__)))
 
 CHECKS = {
+    "C01": dict(cat="exploration", sec="5 C01",
+                tech="runtime monitor: structure-aware mutation of node-issued VCs/VPs submitted to the real verifier API; reject-or-equivalent oracle; reference-verdict grid (time, revocation, trust, deactivation, signer)",
+                text="A complete in-process node issues credentials (ldp_vc, jwt_vc, with status list / expiry) and builds presentations (ldp_vp, jwt_vp); every artefact must verify (round trip). "
+                     "Mutation operators (change/delete/rename/add member at every JSON pointer, array edits, embedded-credential swap, proof options, JWT header/claim re-encoding under the original signature, "
+                     "signature edits) produce mutants that are submitted to the verifier API: a mutant that still verifies must be JSON-LD-equivalent (resp. byte-equal signing input) to the original. "
+                     "A grid of validAt times around issuance/expiry, status-list revocation, trust required/not, issuer deactivation, forged issuer and signer != subject is compared with a reference verdict.",
+                note="did:web issuers on one node: key add/remove over time (did:nuts histories) and a second resolving node are not exercised; equivalence = normalised JSON-LD (sets, single-element arrays, @value, aliases, context listing)."),
+    "C04": dict(cat="exploration", sec="5 C04",
+                tech="runtime monitor: raw-TCP request-target/credential grammar against a full node with token_v2 auth; handler-reached ground truth by response shape, audit entries and SQL/key-store state diff",
+                text="Full in-process node with token_v2 authentication and a generated authorized_keys file (Ed25519, P-256/384/521, RSA; ignored lines), in split-listener and shared-listener configurations. "
+                     "Raw TCP requests in every request-target form (origin/absolute/authority/asterisk, encoded and duplicated slashes, dot segments, case, params, queries, HTTP/1.0) x ~190 credential classes "
+                     "labelled by a reference predicate (signature by authorised key, aud, iss = key comment, sub, UUID jti, bounded lifetime; JOSE hostile variants). Oracle: a handler under /internal is reached only "
+                     "with a conforming token; failing credentials get exactly 401, no AccessGranted audit entry and no state change (21 SQL tables + key files); /internal,/status,/metrics,/health never served on the public listener.",
+                note="Ground truth for 'handler reached' is response shape + audit log + state diff (no hook inside echo); HTTP/2 and request smuggling not covered."),
     "C02": dict(cat="exploration", sec="5 C02",
                 tech="runtime monitor: defect-injecting token-request generator against a full in-process authorization server + reference predicate; introspection compared with issuance facts; session-store write hooks",
                 text="The harness owns did:jwk holders, has the real node issue credentials to them and signs its own JWT presentations, so every single defect (and seeded pairs) of a valid "
